@@ -1819,7 +1819,10 @@ fn gen_call_fixed(g: &mut Gen, h: &Hist, f: usize, slot: u32) -> Op {
 /// forms the descriptor-driven histories cannot express.  Runs once per process, before any
 /// other decorated function is used, on a thread of its own.
 fn extras_probe(rep: &mut Report, focus: &str, seed: u64) {
-    if !matches!(focus, "C01" | "C03" | "C04" | "C15" | "C16" | "C17" | "C19") {
+    if focus == "C05" {
+        bigmem_probe(rep, seed);
+    }
+    if !matches!(focus, "C01" | "C03" | "C04" | "C09" | "C15" | "C16" | "C17" | "C19") {
         // the clashing names still have to be registered first in every process
         for d in corpus::EXTRAS.iter().filter(|d| d.kind == "dup") {
             let _ = std::panic::catch_unwind(|| (d.call)(1));
@@ -1836,7 +1839,7 @@ fn extras_probe(rep: &mut Report, focus: &str, seed: u64) {
         vhooks::arm_pred(None);
         vhooks::arm_check(None);
         vhooks::arm_nested(None);
-        let order: Vec<&corpus::ExtraDesc> = corpus::EXTRAS.iter().filter(|d| d.kind == "dup").chain(corpus::EXTRAS.iter().filter(|d| d.kind != "dup")).collect();
+        let order: Vec<&corpus::ExtraDesc> = corpus::EXTRAS.iter().filter(|d| d.kind == "dup").chain(corpus::EXTRAS.iter().filter(|d| d.kind != "dup" && d.kind != "bigm" && (focus != "C09" || d.kind == "mres"))).collect();
         for d in order {
             let flavour = if d.is_async { "async" } else if d.scope_thread { "thread" } else { "global" };
             let sg = |p: &str, kind: &str| format!("{}|L2|{}|{}|{}|{}", p, flavour, d.policy, kind, d.kind);
@@ -1853,6 +1856,13 @@ fn extras_probe(rep: &mut Report, focus: &str, seed: u64) {
                         }
                     }
                     "dup" => vhooks::mix(d.fid, (d.digest)(a)),
+                    "mres" => {
+                        if a % 3 == 0 {
+                            u64::MAX
+                        } else {
+                            vhooks::mix(d.fid, (d.digest)(a))
+                        }
+                    }
                     _ => {
                         let mut v = 0u64;
                         let mut i = a;
@@ -1903,8 +1913,13 @@ fn extras_probe(rep: &mut Report, focus: &str, seed: u64) {
                         }
                     }
                 }
+                // a failing call of a Result function runs its body every time
+                if d.kind == "mres" && a % 3 == 0 && ran != 1 {
+                    viol.push(("C09".into(), sg("C09", "err-outcome-not-recomputed"), format!("{}({}) fails with Err, yet this call ran the body {} times (an Err is never stored)", d.fn_name, a, ran), wit(&args)));
+                    break;
+                }
                 // an argument tuple that was the outermost (last) store of the previous call is still there
-                if repeat_of_last && ran > 0 && d.attr_text.find("max_memory").is_none() && matches!(d.policy, "fifo" | "lru") {
+                if repeat_of_last && !(d.kind == "mres" && a % 3 == 0) && ran > 0 && d.attr_text.find("max_memory").is_none() && matches!(d.policy, "fifo" | "lru") {
                     viol.push(("C03".into(), sg("C03", "repeat-of-the-previous-call-recomputed"), format!("{}({}) ran its body {} times although the previous call had just stored that result", d.fn_name, a, ran), wit(&args)));
                     break;
                 }
@@ -1920,23 +1935,101 @@ fn extras_probe(rep: &mut Report, focus: &str, seed: u64) {
             // nothing bounds the cache: every argument tuple ran its body exactly once, however it
             // was reached (directly or through the function calling itself)
             if d.limit.is_none() && d.attr_text.find("max_memory").is_none() && d.attr_text.find("ttl").is_none() {
-                if let Some((dg, c)) = execs.iter().find(|(_, c)| **c != 1) {
+                if let Some((dg, c)) = execs.iter().find(|(dg, c)| **c != 1 && !(d.kind == "mres" && (0..64u32).find(|a| (d.digest)(*a) == **dg).map_or(false, |a| a % 3 == 0))) {
                     let which = (0..64u32).find(|a| (d.digest)(*a) == *dg);
                     viol.push(("C03".into(), sg("C03", "not-exactly-once"), format!("{} ran its body {} times for argument {:?} (unbounded cache, no invalidation)", d.fn_name, c, which), wit(&args)));
                 }
             }
         }
-        viol.retain(|v| v.0 == focus || (focus == "C19" && v.0 == "C03"));
+        viol.retain(|v| v.0 == focus || (focus == "C19" && (v.0 == "C03" || v.0 == "C09")));
         viol
     })
     .join()
     .unwrap_or_default();
     rep.count("L2", "extras_probed", corpus::EXTRAS.len() as u64);
+    if focus == "C09" {
+        rep.count("C09", "calls_of_result_functions_stamped_by_macro_rules", 40 * corpus::EXTRAS.iter().filter(|d| d.kind == "mres").count() as u64);
+    }
     for p in ["C01", "C03", "C04", "C16", "C17"] {
         rep.count(p, "calls_of_self_recursive_and_unit_functions", if p == focus { 40 * corpus::EXTRAS.iter().filter(|d| d.kind != "dup").count() as u64 } else { 0 });
     }
     for (p, sig, what, wit) in out {
         rep.violation(&p, &sig, &what, wit);
+    }
+}
+
+/// C05 at a scale the model-driven monitors do not reach: a 64 KiB bound, about a hundred small
+/// residents, then values that need most of the bound (long vectors with unevenly sized
+/// elements), so that one store displaces dozens of entries.  Direct rule: after every call the
+/// footprints of the listed entries (computed here from the arguments) sum to at most the bound.
+fn bigmem_probe(rep: &mut Report, seed: u64) {
+    let out: Vec<(String, String, Value)> = std::thread::spawn(move || {
+        let mut viol = vec![];
+        let mut rng = Rng::new(seed ^ 0xB16_3E3);
+        vhooks::disarm_exec();
+        vhooks::arm_pred(None);
+        vhooks::arm_check(None);
+        vhooks::arm_nested(None);
+        let mut counters = (0u64, 0u64, 0u64, 0u64);
+        let mut fp_memo: HashMap<u32, usize> = HashMap::new();
+        for d in corpus::EXTRAS.iter().filter(|d| d.kind == "bigm") {
+            let flavour = if d.is_async { "async" } else { "global" };
+            let mut args: Vec<u32> = vec![];
+            let mut next_small = 0u32;
+            let mut before = 0usize;
+            let n_small = 100 + rng.usize(20);
+            let mut plan: Vec<u32> = (0..n_small).map(|_| { next_small += 1; next_small }).collect();
+            for _ in 0..3 {
+                plan.push(1000 + rng.usize(5000) as u32);
+                for _ in 0..rng.usize(70) {
+                    next_small += 1;
+                    plan.push(if rng.chance(1, 4) { 1 + rng.usize(next_small as usize) as u32 } else { next_small });
+                }
+            }
+            'hist: for a in plan {
+                args.push(a);
+                if std::panic::catch_unwind(|| (d.call)(a)).is_err() {
+                    break;
+                }
+                counters.0 += 1;
+                let Some(l) = listing(d.fn_name) else { break };
+                let mut total = 0usize;
+                for k in &l {
+                    let digits: String = k.chars().filter(|c| c.is_ascii_digit()).collect();
+                    match digits.parse::<u32>() {
+                        Ok(x) => total += *fp_memo.entry(x).or_insert_with(|| corpus::big_footprint(x)),
+                        Err(_) => {
+                            counters.3 += 1;
+                            break 'hist;
+                        }
+                    }
+                }
+                counters.1 = counters.1.max(l.len() as u64);
+                if before > l.len() + 64 {
+                    counters.2 += 1;
+                }
+                before = l.len();
+                if total > corpus::BIGM_BOUND {
+                    viol.push((format!("C05|L2|{}|{}|memory-bound-exceeded-after-store|bigm", flavour, d.policy), format!("{}: after the call with {} the cache lists {} entries whose values occupy {} bytes, max_memory is {}", d.fn_name, a, l.len(), total, corpus::BIGM_BOUND), json!({"monitor": "l2mon-bigmem", "fid": d.fid, "fn": d.fn_name, "attrs": d.attr_text, "args_so_far": args, "seed": seed})));
+                    break;
+                }
+            }
+        }
+        viol.push(("".into(), format!("{} {} {} {}", counters.0, counters.1, counters.2, counters.3), json!(null)));
+        viol
+    })
+    .join()
+    .unwrap_or_default();
+    for (sig, what, wit) in out {
+        if sig.is_empty() {
+            let c: Vec<u64> = what.split(' ').map(|x| x.parse().unwrap_or(0)).collect();
+            rep.count("C05", "bigmem_probe_calls_with_footprint_sum_checked", c[0]);
+            rep.count("C05", "bigmem_probe_stores_displacing_more_than_64_entries", c[2]);
+            rep.count("C05", "bigmem_probe_unreadable_keys", c[3]);
+            rep.notes.push(format!("bigmem probe: up to {} residents under the 64 KiB bound", c[1]));
+        } else {
+            rep.violation("C05", &sig, &what, wit);
+        }
     }
 }
 
@@ -2117,10 +2210,40 @@ fn main() {
         "C13" | "C15" => 2,
         _ => 1,
     };
+    // the members of a dependency chain ("chainK_src" <- "chainK_mid" <- "chainK_top") stay together
+    let chain_of = |i: usize| -> Option<&'static str> {
+        let n: &'static str = corpus::FUNCS[i].reg_name;
+        if n.starts_with("chain") {
+            n.split('_').next()
+        } else {
+            None
+        }
+    };
+    {
+        let mut p2: Vec<usize> = vec![];
+        for &i in &perm {
+            if p2.contains(&i) {
+                continue;
+            }
+            p2.push(i);
+            if let Some(c) = chain_of(i) {
+                for &j in &perm {
+                    if chain_of(j) == Some(c) && !p2.contains(&j) {
+                        p2.push(j);
+                    }
+                }
+            }
+        }
+        perm = p2;
+    }
     let mut groups: Vec<Vec<usize>> = vec![];
     let mut i = 0;
     while i < perm.len() {
-        let g = (gmin + rng.usize(gmax - gmin + 1)).min(perm.len() - i);
+        let mut g = (gmin + rng.usize(gmax - gmin + 1)).min(perm.len() - i);
+        match chain_of(perm[i]) {
+            Some(c) => g = perm[i..].iter().take_while(|j| chain_of(**j) == Some(c)).count(),
+            None => g = g.min(perm[i..].iter().take_while(|j| chain_of(**j).is_none()).count()).max(1),
+        }
         groups.push(perm[i..i + g].to_vec());
         i += g;
     }
